@@ -1,0 +1,22 @@
+//go:build verif
+
+// Contracts for the deductive verifier in /verif (gowp).  This file contains no
+// executable code: only "//@" specification comments.  Compiled only under tag "verif".
+package ast
+
+//@ func (*Comments).AtLineBreak
+//@   props C04
+//@   safety C04
+//@   requires c != nil
+//@   modifies Comments.wasLineBreak
+//@   nothrow
+//@ func (*Comments).AddComment
+//@   props C04
+//@   safety C04
+//@   requires c != nil
+//@   modifies Comments.Comments, Comments.future, elems(*Comment)
+//@   nothrow
+//@ func NewComment
+//@   props C04
+//@   pure
+//@   nothrow
